@@ -14,7 +14,7 @@ from . import common, configs_k1
 
 PROP = "C19"
 KQ = ("NL", "J", "CE", "W0")
-KT = KQ + ("NLI", "W3", "WT", "CO", "CD", "BL", "CEE", "IND0", "UP")
+KT = KQ + ('NLI', 'WT', 'CD', 'UP')
 _cur = {"rule": None}
 
 
